@@ -99,6 +99,13 @@ def write_upload_config(sb, st, provider, max_groups=3, max_age=None, passphrase
 
 def warm_gpg(sb):
     gh = sb.path("home", ".gnupg")
+    # vsb SIGTERMs gpg when an upload fails; a gpg that dies while rewriting random_seed leaves it empty, the next gpg of the same run prints a
+    # note on stderr and vsb reports that upload as failed too.  That chain is gpg's and the environment's, not the property's: the sandbox gpg
+    # keeps no seed file at all.
+    conf = os.path.join(gh, "gpg.conf")
+    if not os.path.exists(conf):
+        with open(conf, "w") as f:
+            f.write("no-random-seed-file\n")
     # a first gpg invocation in a fresh home prints "keybox created" on stderr, which vsb (rightly or not) treats as a gpg error: use an
     # initialised home, as any real user has
     subprocess.run(["gpg", "--homedir", gh, "--batch", "--list-keys"], stdout=subprocess.DEVNULL, stderr=subprocess.DEVNULL)
@@ -138,6 +145,7 @@ def run_upload(sb, emu, now=None, timeout=90, extra_env=None, args=None, prefix=
             os.kill(pid, signal.SIGKILL)
         except OSError:
             pass
+    slevel.record_messages(out.decode("utf-8", "replace"))
     return {"exit": p.returncode, "out": out.decode("utf-8", "replace"), "seconds": dt, "timed_out": timed_out, "leftover": [c for _, c in leftover]}
 
 
